@@ -243,7 +243,7 @@ theorem initial_test (d0 : Bytes) (w : W) (first : Outcome) (h : Rest d0 w) (hb 
 
 theorem rest_beginRun (d0 : Bytes) (w0 : W) (h : Rest d0 w0) :
     Rest d0 (beginRun w0) ∧ (beginRun w0).best = (beginRun w0).testcase :=
-  ⟨⟨h.disk, h.tc, h.li⟩, rfl⟩
+  ⟨⟨h.disk, h.tc, by intro t ht; simp [beginRun] at ht⟩, rfl⟩
 
 theorem rest_dumpOriginal (d0 : Bytes) (w : W) (h : Rest d0 w) (hb : w.best = w.testcase) :
     Rest d0 (dumpOriginal w) ∧ (dumpOriginal w).best = (dumpOriginal w).testcase :=
